@@ -8,6 +8,14 @@
         the name of any output file was accepted without an error (property oracle;
         conservative: names produced by renaming count as possible targets)
      4  an unnamed first item was accepted without an error       (property oracle)
+     5  declarative bookkeeping of kept files disagrees with the output: walking the file items
+        in order, an item (n, c) must be DROPPED iff an earlier kept item has content c and was
+        submitted as n or ended up named n, and must otherwise appear as the next output file,
+        under the name n when no earlier output has that name and under a name no earlier
+        output has in any case; the number of output files must equal the number of kept items
+                                                                  (property oracle)
+     6  in a history without any patch item, an output's text is not its submitted text with
+        exactly the insertion-point markers removed               (property oracle)
      9  the model ran out of fuel (never expected)                            *)
 From Coq Require Import List Arith Bool NArith.
 From Verif Require Import Base.Bytes Gen.FileManager.
@@ -45,6 +53,61 @@ Fixpoint hist_named_patch_without_target (seen : list bytes) (h : list (list gen
 Definition unnamed_first (h : list (list gen)) : bool :=
   existsb (fun call => match call with g :: _ => match g_name g with None => true | _ => false end | [] => false end) h.
 
+(* ---- oracle 5: declarative bookkeeping over the observed output names ---- *)
+Definition file_items (h : list (list gen)) : list (bytes * bytes) :=
+  flat_map (fun call => flat_map (fun g => match g_name g with
+                                           | Some n => if beqb (g_ip g) [] then [(n, g_content g)] else []
+                                           | None => [] end) call) h.
+
+(* kept : (submitted name, final name, content), most recent first *)
+Fixpoint bookkeeping (items : list (bytes * bytes)) (outs : list (bytes * bytes))
+                     (kept : list (bytes * bytes * bytes)) : bool :=
+  match items with
+  | [] => match outs with [] => true | _ => false end
+  | (n, c) :: rest =>
+    if existsb (fun k => let '(sub, fin, kc) := k in beqb kc c && (beqb sub n || beqb fin n)) kept
+    then bookkeeping rest outs kept
+    else match outs with
+         | [] => false
+         | (fin, _) :: outs' =>
+           let taken := existsb (fun k => let '(_, f, _) := k in beqb f fin) kept in
+           let n_free := negb (existsb (fun k => let '(_, f, _) := k in beqb f n) kept) in
+           if taken then false
+           else if n_free && negb (beqb fin n) then false
+           else bookkeeping rest outs' ((n, fin, c) :: kept)
+         end
+  end.
+
+(* ---- oracle 6: no patches at all: text = submitted text minus markers ---- *)
+Definition has_patch_item (h : list (list gen)) : bool :=
+  existsb (fun call => existsb (fun g => match g_name g with None => true | Some _ => negb (beqb (g_ip g) []) end) call) h.
+
+Fixpoint strip_markers (skip : nat) (s : bytes) : bytes :=
+  match s with
+  | [] => []
+  | c :: r =>
+    match skip with
+    | S k => strip_markers k r
+    | O => match marker_at s with
+           | Some mk => strip_markers (List.length mk - 1) r
+           | None => c :: strip_markers 0 r
+           end
+    end
+  end.
+
+Fixpoint texts_stripped (items : list (bytes * bytes)) (outs : list (bytes * bytes))
+                        (kept : list (bytes * bytes * bytes)) : bool :=
+  match items with
+  | [] => true
+  | (n, c) :: rest =>
+    if existsb (fun k => let '(sub, fin, kc) := k in beqb kc c && (beqb sub n || beqb fin n)) kept
+    then texts_stripped rest outs kept
+    else match outs with
+         | [] => true
+         | (fin, txt) :: outs' => beqb txt (strip_markers 0 c) && texts_stripped rest outs' ((n, fin, c) :: kept)
+         end
+  end.
+
 Definition check (c : case) : list N :=
   let model := run (c_hist c) in
   let corr :=
@@ -59,7 +122,9 @@ Definition check (c : case) : list N :=
     | Some obs =>
         (if has_dup (map fst obs) then [2%N] else []) ++
         (if hist_named_patch_without_target (map fst obs) (c_hist c) then [3%N] else []) ++
-        (if unnamed_first (c_hist c) then [4%N] else [])
+        (if unnamed_first (c_hist c) then [4%N] else []) ++
+        (if bookkeeping (file_items (c_hist c)) obs [] then [] else [5%N]) ++
+        (if has_patch_item (c_hist c) || texts_stripped (file_items (c_hist c)) obs [] then [] else [6%N])
     | None => []
     end in
   corr ++ spec.
